@@ -29,8 +29,9 @@ Theorem place_keeps_order : forall ks k idx io i,
 Proof. exact place_valid. Qed.
 Print Assumptions place_keeps_order.
 
-(* the parser's expected-state machine accepts a valid kind list unchanged ... *)
-Theorem valid_reparse : forall ks, valid_kinds ks = true -> accept_kinds ks = ks.
+(* the parser's expected-state machine accepts a valid kind list unchanged (norefused: no margin rule outside @page,
+   which insertRule refuses and the parser discards) ... *)
+Theorem valid_reparse : forall ks, valid_kinds ks = true -> norefused ks = true -> accept_kinds ks = ks.
 Proof. exact valid_reparse_main. Qed.
 Print Assumptions valid_reparse.
 
@@ -65,8 +66,7 @@ Example a_rejected_call :
   = (run true (firstn 5 demo_ops) [], Exc HierarchyRequestErr).
 Proof. exact demo_rejected. Qed.
 
-Example a_valid_list : valid_kinds [CHARSET_RULE; COMMENT; IMPORT_RULE; UNKNOWN_RULE; NAMESPACE_RULE; VARIABLES_RULE;
-                                    MARGIN_RULE; STYLE_RULE; COMMENT; MEDIA_RULE; PAGE_RULE; FONT_FACE_RULE] = true.
+Example a_valid_list : valid_kinds demo_list = true /\ norefused demo_list = true /\ accept_kinds demo_list = demo_list.
 Proof. exact demo_valid_list. Qed.
 
 Example an_invalid_list_is_not_read_back : accept_kinds [COMMENT; NAMESPACE_RULE; IMPORT_RULE] = [COMMENT; NAMESPACE_RULE].
